@@ -72,6 +72,15 @@ Proof.
   repeat constructor; simpl; intuition discriminate.
 Qed.
 
+(* hypotheses of trace_ok_fifo_realtime: split ex_log after the first receive has returned; the
+   receiver is idle there and takes 3 (sent by thread 1 after 1) later *)
+Example ex_realtime :
+  let log1 := firstn 6 ex_log in let log2 := skipn 6 ex_log in
+  log1 ++ log2 = ex_log /\ In (VNum 1) (log_recvd 0%nat log1) /\ open_inv 3 log1 = false /\
+  In (VNum 3) (log_recvd_by 3 0%nat log2) /\
+  In (VNum 1) (log_sent_by 1 0%nat ex_log) /\ In (VNum 3) (log_sent_by 1 0%nat ex_log).
+Proof. vm_compute. intuition. Qed.
+
 (* the checker rejects what the protocol forbids: a value received twice, reordering, closure
    reported while a value is still undelivered, a send completing on an unbuffered channel before
    any receiver was invoked, default taken while a value sits in the buffer *)
